@@ -24,3 +24,4 @@ def run(ctx, rep):
     compiler_rules.rule_computed_flag_consulted(ctx, rep, "C08-R17")
     objmodel.rule_arrow_this_is_lexical(ctx, rep, "C08-R18")
     objmodel.rule_delete_clears_every_table(ctx, rep, "C08-R19")
+    objmodel.rule_constructor_result_objects_include_functions(ctx, rep, "C08-R20")
